@@ -2,7 +2,9 @@
 real overlap search, real uniform-mesh mapping, real mesh filter and step-function resampling)."""
 import itertools
 
-from symx.core import AND, OR, NOT, IMPLIES, IFF, ITE, MAX, MIN, CLOSE, Sym, is_sym
+import numpy as _np
+
+from symx.core import AND, OR, NOT, IMPLIES, IFF, ITE, MAX, MIN, CLOSE
 from symx.engine import harness
 from symx import shims
 
@@ -12,14 +14,34 @@ import armi.reactor.composites as compmod
 import armi.reactor.components.component as cmod
 import armi.reactor.converters.uniformMesh as ummod
 import armi.utils.mathematics as mathmod
+import armi.utils.units as unitsmod
 from armi.reactor.converters.uniformMesh import UniformMeshGeometryConverter, UniformMeshGenerator, ParamMapper
 from armi.reactor.flags import Flags
 
 from harness import _build
 
 
+class _ObjArr(_np.ndarray):
+    """Object array whose mean() over an EMPTY selection gives nan like a float array does (numpy raises
+    ZeroDivisionError for empty object arrays); average1DWithinTolerance relies on the float behaviour to reach its
+    documented 'Nothing was near the mean' ValueError."""
+
+    def mean(self, axis=None, **kw):
+        if self.size == 0:
+            return _np.full(self.shape[1:] if axis == 0 else (), _np.nan)
+        return _np.ndarray.mean(self, axis=axis, **kw)
+
+
 class _NpShim(shims.NpShim):
-    """np_shim plus a digitize that accepts a *list* of symbolic points (resampleStepwise passes the whole xout)."""
+    """np_shim plus (i) a digitize that accepts a *list* of symbolic points (resampleStepwise passes the whole xout)
+    and (ii) 2-D symbolic arrays as _ObjArr (see there)."""
+
+    @staticmethod
+    def array(obj, dtype=None, **kw):
+        a = shims.NpShim.array(obj, dtype=dtype, **kw)
+        if a.dtype == object and a.ndim == 2 and shims._has_sym(a):
+            return a.view(_ObjArr)
+        return a
 
     @staticmethod
     def digitize(x, bins, right=False):
@@ -36,18 +58,20 @@ shims.patch(compmod, np=shims.np_shim)
 shims.patch(cmod, np=shims.np_shim, float=shims.float_shim)
 shims.patch(ummod, np=shims.np_shim, isinstance=shims.isinstance_shim)
 shims.patch(mathmod, np=np_shim)
+shims.patch(unitsmod, float=shims.float_shim)
 
 STUBS = ["assemblies.np / blocks.np / composites.np / component.np / uniformMesh.np -> object-array aware numpy shim",
-         "component.float -> identity on proxies; uniformMesh.isinstance -> proxies count as numbers",
+         "component.float / units.float -> identity on proxies; uniformMesh.isinstance -> proxies count as numbers",
          "mathematics.np -> same shim, digitize(list of proxies, bins) done point by point with the code's own "
-         "comparison (x >= bin)"]
+         "comparison (x >= bin); 2-D object arrays built there get mean()=nan on an empty selection (float-array "
+         "behaviour) instead of numpy's ZeroDivisionError for object dtype"]
 
 HLO, HHI = 0.1, 1000.0      # physical window for block heights / mesh sizes (cm)
 
 
-def sym_assembly(ctx, n, tag, heights=None):
+def sym_assembly(ctx, n, tag, heights=None, **kw):
     """Real HexAssembly of n real HexBlocks whose heights are symbolic (or the given values)."""
-    a = _build.mk_assembly(n)
+    a = _build.mk_assembly(n, **kw)
     hs = []
     for k, b in enumerate(a):
         h = heights[k] if heights is not None else ctx.real("h%s%d" % (tag, k), HLO, HHI)
@@ -96,7 +120,7 @@ def blocks_between_elevations_partition_the_interval(ctx, n):
         if k in rep:
             ctx.check("block %d: reported overlap is positive" % k, got > 0)
             ctx.check("block %d: overlap not larger than the block or the window" % k,
-                      AND(got <= hs[k], got <= zu - zl))
+                      AND(got <= hs[k] + 1e-9 * H, got <= zu - zl + 1e-9 * H))
 
 
 @harness("C11", bounds="as above; elevation anywhere in [-10, H+10]", stubs=STUBS,
@@ -121,7 +145,7 @@ def block_at_elevation_contains_the_elevation(ctx, n):
 # ---------------------------------------------------------------------------------------------------------------
 # (2) mapping a state onto another mesh spanning the same height
 
-NUCS = {"fuel": ["U235", "U238"], "clad": ["FE"], "duct": ["FE"], "intercoolant": ["NA"]}
+NUCS = {"fuel": ["U235", "U238"], "clad": ["FE"], "duct": ["FE"], "intercoolant": ["NA"], "coolant": ["NA"]}
 ALLNUCS = ["U235", "U238", "FE", "NA"]
 
 
@@ -132,11 +156,18 @@ def fill_densities(ctx, a, tag):
                                    for nuc in NUCS.get(c.name, [])}
 
 
+def _slack(ctx, sign):
+    """Assumptions on *derived* lengths (a remainder H - sum d) are evaluated in floats on concrete replays; a solver
+    model sitting exactly on the bound would be rejected there because of rounding in the subtraction.  The replay
+    therefore accepts 1e-9 relative slack (the symbolic domain is unchanged)."""
+    return 1.0 if ctx.mode == "sym" else 1.0 + sign * 1e-9
+
+
 def dest_mesh(ctx, H, nd, tag="d"):
     """nd destination heights spanning exactly H: nd-1 symbolic, the last one is the remainder."""
     ds = [ctx.real("%s%d" % (tag, k), HLO, HHI) for k in range(nd - 1)]
     last = H - sum(ds)
-    ctx.assume(AND(last >= HLO, last <= HHI))
+    ctx.assume(AND(last >= HLO * _slack(ctx, -1), last <= HHI * _slack(ctx, +1)))
     return ds + [last]
 
 
@@ -182,3 +213,489 @@ def remesh_conserves_atoms(ctx, ns, nd):
             ctx.check_close("dest block %d: N(%s) h = sum of overlapped N_i h_i" % (j, nuc),
                             bd.getNumberDensity(nuc) * hd[j], want,
                             scale=sum(bs.getNumberDensity(nuc) for bs in src) * H + 1e-30)
+
+
+VI, VIARR, AVG, AVGARR, CONST, PEAK = "power", "mgFlux", "pdens", "pinMgFluxes", "flux", "fluxPeak"
+
+
+def fill_params(ctx, a, tag, unset=()):
+    """Symbolic block parameters on every block of a: one volume-integrated scalar, one volume-integrated 2-vector,
+    one averaged scalar, one averaged 2-vector; blocks listed in `unset` keep the array parameters unset (None)."""
+    vals = []
+    for k, b in enumerate(a):
+        v = {VI: ctx.real("P%s%d" % (tag, k), -1e6, 1e6), AVG: ctx.real("q%s%d" % (tag, k), -1e6, 1e6)}
+        if k not in unset:
+            v[VIARR] = [ctx.real("F%s%d_%d" % (tag, k, g), 0.0, 1e6) for g in range(2)]
+            v[AVGARR] = [ctx.real("f%s%d_%d" % (tag, k, g), 0.0, 1e6) for g in range(2)]
+        for name, x in v.items():
+            b.p[name] = x
+        vals.append(v)
+    return vals
+
+
+@harness("C11", bounds="meshes as above; per source block a volume-integrated scalar (power) and 2-vector (mgFlux), "
+                       "an averaged scalar (pdens) and 2-vector (pinMgFluxes) in [-1e6,1e6]/[0,1e6], a constant "
+                       "profile (flux); variant with the array parameters unset on one source block",
+         stubs=STUBS, qtimeout_ms=30000,
+         instances={"quick": [dict(ns=2, nd=2, unset=()), dict(ns=3, nd=2, unset=()), dict(ns=2, nd=3, unset=(1,))],
+                    "thorough": [dict(ns=3, nd=2, unset=(0,)), dict(ns=2, nd=3, unset=()),
+                                 dict(ns=3, nd=3, unset=())]})
+def remesh_maps_parameters_by_kind(ctx, ns, nd, unset):
+    src, hs = sym_assembly(ctx, ns, "s")
+    H = sum(hs)
+    vals = fill_params(ctx, src, "s", unset)
+    const = ctx.real("c", -1e6, 1e6)
+    for b in src:
+        b.p[CONST] = const
+    dst, hd = sym_assembly(ctx, nd, "d", heights=dest_mesh(ctx, H, nd))
+    names = [VI, VIARR, AVG, AVGARR, CONST]
+    mapper = ParamMapper([], names, src[0])
+    ctx.check("parameter kinds as declared by armi", AND(mapper.isVolIntegrated[VI], mapper.isVolIntegrated[VIARR],
+                                                          not mapper.isVolIntegrated[AVG],
+                                                          not mapper.isVolIntegrated[AVGARR],
+                                                          not any(mapper.isPeak[n] for n in names)))
+    UniformMeshGeometryConverter.setAssemblyStateFromOverlaps(src, dst, mapper, mapNumberDensities=False)
+    setBlocks = [k for k in range(ns) if k not in unset]
+    # volume-integrated: assembly total conserved, each destination block gets the overlapped share
+    tot = sum(b.p[VI] for b in dst)
+    want = sum(v[VI] for v in vals)
+    if ctx.canary:
+        want = want + ITE(hd[0] > 2 * hs[0], vals[0][VI] * 0.01, 0)
+    sc = sum(abs(v[VI]) for v in vals) + 1e-30
+    ctx.check_close("assembly total of the volume-integrated scalar conserved", tot, want, scale=sc)
+    for g in range(2):
+        ctx.check_close("assembly total of the volume-integrated vector conserved (group %d)" % g,
+                        sum(b.p[VIARR][g] for b in dst if b.p[VIARR] is not None),
+                        sum(vals[k][VIARR][g] for k in setBlocks),
+                        scale=sum(vals[k][VIARR][g] for k in setBlocks) + 1e-30)
+    for j, bd in enumerate(dst):
+        ctx.check_close("dest %d: integrated scalar = sum of source values x overlapped fraction of the source" % j,
+                        bd.p[VI], sum(vals[i][VI] * overlap(bs, bd) / hs[i] for i, bs in enumerate(src)), scale=sc)
+        # averaged: height-weighted mean over the destination block
+        ctx.check_close("dest %d: averaged scalar x height = sum of overlapped value x overlap" % j,
+                        bd.p[AVG] * hd[j], sum(vals[i][AVG] * overlap(bs, bd) for i, bs in enumerate(src)),
+                        scale=sum(abs(v[AVG]) for v in vals) * H + 1e-30)
+        if not unset:
+            for g in range(2):
+                ctx.check_close("dest %d: averaged vector x height (group %d)" % (j, g), bd.p[AVGARR][g] * hd[j],
+                                sum(vals[i][AVGARR][g] * overlap(bs, bd) for i, bs in enumerate(src)),
+                                scale=sum(v[AVGARR][g] for v in vals) * H + 1e-30)
+        if not unset and ns <= 2:    # (implied by the weighted-sum obligation; the nonlinear query is slow for ns=3)
+            lo = MIN(*[v[AVG] for v in vals])
+            hi = MAX(*[v[AVG] for v in vals])
+            tol = 1e-9 * (abs(lo) + abs(hi)) * H     # overlaps thinner than 1e-10 of a block are dropped by design
+            ctx.check("dest %d: a mean lies between the smallest and largest source value" % j,
+                      AND((bd.p[AVG] - lo) * hd[j] >= -tol, (bd.p[AVG] - hi) * hd[j] <= tol))
+        ctx.check_close("dest %d: constant profile stays constant (x height, tolerance relative to H)" % j,
+                        bd.p[CONST] * hd[j], const * hd[j], scale=abs(const) * H + 1e-30)
+    for b, v in zip(src, vals):
+        ctx.check("source block parameters untouched", AND(b.p[VI] is v[VI], b.p[AVG] is v[AVG]))
+
+
+@harness("C11", bounds="meshes as above; a peak-type parameter (fluxPeak, location MAX) >= 0 per source block, "
+                       "symbolic in [0,1e6]", stubs=STUBS, qtimeout_ms=30000,
+         instances={"quick": [dict(ns=2, nd=2), dict(ns=3, nd=2)], "thorough": [dict(ns=2, nd=3), dict(ns=3, nd=3)]})
+def remesh_peak_is_largest_overlapped_value(ctx, ns, nd):
+    src, hs = sym_assembly(ctx, ns, "s")
+    H = sum(hs)
+    v = [ctx.real("pk%d" % k, 0.0, 1e6) for k in range(ns)]
+    for b, x in zip(src, v):
+        b.p[PEAK] = x
+    dst, hd = sym_assembly(ctx, nd, "d", heights=dest_mesh(ctx, H, nd))
+    mapper = ParamMapper([], [PEAK], src[0])
+    ctx.check("fluxPeak is declared a peak quantity", AND(mapper.isPeak[PEAK], not mapper.isVolIntegrated[PEAK]))
+    UniformMeshGeometryConverter.setAssemblyStateFromOverlaps(src, dst, mapper, mapNumberDensities=False)
+    for j, bd in enumerate(dst):
+        got = bd.p[PEAK]
+        ov = [overlap(bs, bd) for bs in src]
+        # overlaps thinner than 1e-10 of a block are ignored by design: sandwich between the two readings
+        upper = MAX(*[ITE(o > 0, x, 0) for o, x in zip(ov, v)])
+        lower = MAX(*[ITE(o > 1e-9 * H, x, 0) for o, x in zip(ov, v)])
+        if ctx.canary and j == 0:
+            lower = MAX(*[ITE(hs[0] > 10 * hd[0], x, 0) for x in v])
+        ctx.check("dest %d: peak >= every source value overlapped substantially" % j, got >= lower)
+        ctx.check("dest %d: peak <= largest source value overlapped at all" % j, got <= upper)
+        ctx.check("dest %d: peak is one of the source values" % j, OR(*[got == x for x in v]))
+
+
+def point_mesh(ctx, a, pts, label):
+    """Give assembly a the mesh points pts (pts[0] = 0).  Heights are the differences; the block elevations computed
+    by the real calculateZCoords are checked to equal the points and then replaced by the *same proxy objects*, so
+    that coinciding points of two meshes are structurally identical (sets/dicts of proxies hash structurally)."""
+    for k, b in enumerate(a):
+        b.p.height = pts[k + 1] - pts[k]
+        b.clearCache()
+        for c in b:
+            c.p.volume = None
+    a.calculateZCoords()
+    for k, b in enumerate(a):
+        ctx.check_close("%s block %d: calculateZCoords bottom = mesh point" % (label, k), b.p.zbottom, pts[k],
+                        scale=pts[-1])
+        ctx.check_close("%s block %d: calculateZCoords top = mesh point" % (label, k), b.p.ztop, pts[k + 1],
+                        scale=pts[-1])
+        b.p.zbottom, b.p.ztop = pts[k], pts[k + 1]
+
+
+def coincidence_patterns(ns, nd):
+    """All ways the nd-1 interior destination points can coincide with the ns-1 interior source points
+    (None = distinct from every source point), order preserving."""
+    out = []
+    for pat in itertools.product([None] + list(range(1, ns)), repeat=nd - 1):
+        used = [p for p in pat if p is not None]
+        if used == sorted(set(used)):
+            out.append(pat)
+    return out
+
+
+@harness("C11", bounds="source mesh of ns blocks and destination mesh of nd blocks as symbolic mesh points "
+                       "(cells in [0.1,1000] cm); one instance per coincidence pattern of the interior points (same "
+                       "proxy where they coincide, assumed different otherwise), interleavings by forking; densities "
+                       "of 2 nuclides and a volume-integrated parameter symbolic; state mapped there and back onto "
+                       "the original mesh", stubs=STUBS, qtimeout_ms=30000,
+         instances={"quick": [dict(ns=2, nd=2, pat=p) for p in coincidence_patterns(2, 2)] +
+                             [dict(ns=3, nd=2, pat=p) for p in coincidence_patterns(3, 2) if p != (None,)] +
+                             [dict(ns=2, nd=3, pat=(None, 1), nucs=("U235",))],
+                    "thorough": [dict(ns=3, nd=2, pat=(None,), nucs=())] +     # (densities: nlsat > 60 s/query)
+                                [dict(ns=2, nd=3, pat=p, nucs=("U235",)) for p in coincidence_patterns(2, 3)
+                                 if p != (None, None)] +
+                                [dict(ns=3, nd=3, pat=p, nucs=("U235",)) for p in coincidence_patterns(3, 3)
+                                 if None not in p]})
+def remesh_there_and_back_restores_totals(ctx, ns, nd, pat, nucs=("U235", "FE")):
+    P = [0.0] + [ctx.real("p%d" % k, HLO, ns * HHI) for k in range(1, ns + 1)]
+    for k in range(ns):
+        ctx.assume(AND(P[k + 1] - P[k] >= HLO * _slack(ctx, -1), P[k + 1] - P[k] <= HHI * _slack(ctx, +1)))
+    H = P[-1]
+    Q = [0.0]
+    for j, which in enumerate(pat):
+        if which is None:
+            q = ctx.real("q%d" % (j + 1), HLO, ns * HHI)
+            for p in P[1:]:
+                ctx.assume(q != p)
+        else:
+            q = P[which]
+        Q.append(q)
+    Q.append(H)
+    for k in range(nd):
+        ctx.assume(AND(Q[k + 1] - Q[k] >= HLO * _slack(ctx, -1), Q[k + 1] - Q[k] <= HHI * _slack(ctx, +1)))
+    src, dst, back = _build.mk_assembly(ns), _build.mk_assembly(nd), _build.mk_assembly(ns)
+    point_mesh(ctx, src, P, "source")
+    point_mesh(ctx, dst, Q, "destination")
+    point_mesh(ctx, back, P, "original-mesh copy")
+    for k, b in enumerate(src):
+        for c in b:
+            c.p.numberDensities = {nuc: ctx.real("n%d_%s_%s" % (k, c.name, nuc), 0.0, 10.0)
+                                   for nuc in NUCS.get(c.name, []) if nuc in nucs}
+        b.p[VI] = ctx.real("P%d" % k, -1e6, 1e6)
+    mapper = ParamMapper([], [VI], src[0])
+    a0 = {nuc: atoms(src, nuc) for nuc in nucs}
+    p0 = sum(b.p[VI] for b in src)
+    UniformMeshGeometryConverter.setAssemblyStateFromOverlaps(src, dst, mapper, mapNumberDensities=True)
+    UniformMeshGeometryConverter.setAssemblyStateFromOverlaps(dst, back, mapper, mapNumberDensities=True)
+    area = src[0].getArea()
+    for nuc in nucs:
+        sc = sum(b.getNumberDensity(nuc) for b in src) * H * area + 1e-30
+        got = atoms(back, nuc)
+        if ctx.canary and nuc == nucs[-1]:
+            got = got * ITE(P[1] > 0.75 * H, 1.001, 1.0)
+        ctx.check_close("atoms of %s on the intermediate mesh" % nuc, atoms(dst, nuc), a0[nuc], scale=sc)
+        ctx.check_close("atoms of %s restored after mapping back" % nuc, got, a0[nuc], scale=sc)
+    sc = sum(abs(b.p[VI]) for b in src) + 1e-30
+    ctx.check_close("total of the integrated parameter on the intermediate mesh", sum(b.p[VI] for b in dst), p0,
+                    scale=sc)
+    got = sum(b.p[VI] for b in back)
+    if ctx.canary and not nucs:
+        got = got + ITE(P[1] > 0.75 * H, 0.001 * abs(src[0].p[VI]), 0)
+    ctx.check_close("total of the integrated parameter restored after mapping back", got, p0, scale=sc)
+    if nd >= ns and all(i in pat for i in range(1, ns)):
+        # the destination refines the source: mapping back restores every block, not only the totals
+        for k, (b0, b1) in enumerate(zip(src, back)):
+            ctx.check_close("refinement: block %d integrated parameter restored" % k, b1.p[VI], b0.p[VI], scale=sc)
+            for nuc in nucs:
+                ctx.check_close("refinement: block %d N(%s) restored" % (k, nuc), b1.getNumberDensity(nuc),
+                                b0.getNumberDensity(nuc), scale=b0.getNumberDensity(nuc) + 1e-30)
+
+
+# ---------------------------------------------------------------------------------------------------------------
+# (3) common-mesh filtering
+
+
+def _subsets(n, kmax):
+    return [s for k in range(kmax + 1) for s in itertools.combinations(range(n), k)]
+
+
+@harness("C11", bounds="n candidate mesh points (n=4; all pairwise different, positions symbolic in [0,4000] cm, any "
+                       "spacing), minimum size in [0.01,100] symbolic, anchors = any subset of <= 2 candidates "
+                       "(enumerated), both preferences", stubs=STUBS,
+         instances={"quick": [dict(n=4, anchors=a, preference=p) for a in _subsets(4, 2) for p in ("bottom", "top")],
+                    "thorough": [dict(n=5, anchors=a, preference=p) for a in _subsets(5, 2) + [(0, 2, 4), (1, 2, 3)]
+                                 for p in ("bottom", "top")]})
+def filter_mesh_respects_minimum_and_anchors(ctx, n, anchors, preference):
+    pts = [ctx.real("x%d" % k, 0.0, 4000.0) for k in range(n)]
+    for k in range(n - 1):
+        ctx.assume(pts[k] < pts[k + 1])
+    m = ctx.real("minSize", 0.01, 100.0)
+    anc = [pts[k] for k in anchors]
+    gen = UniformMeshGenerator(None, minimumMeshSize=m)
+    shuffled = pts[1::2] + pts[0::2]          # the input order must not matter
+    tooClose = OR(*[abs(anc[i] - anc[j]) < m for i in range(len(anc)) for j in range(i + 1, len(anc))]) \
+        if len(anc) > 1 else False
+    mreq = m
+    if ctx.canary:
+        mreq = m * ITE(AND(pts[-1] > 3000, m > 50), 1.5, 1)
+    try:
+        out = gen._filterMesh(list(shuffled), m, list(anc), preference=preference)
+        raised = False
+    except ValueError:
+        raised = True
+    ctx.check("ValueError exactly when two anchors are closer than the minimum", IFF(raised, tooClose))
+    if raised:
+        return
+    ctx.check("result is not empty", len(out) >= 1)
+    for a, b in zip(out, out[1:]):
+        ctx.check("strictly increasing with gaps >= minimum", AND(b > a, b - a >= mreq))
+    for x in out:
+        ctx.check("only candidate points are used", any(x is p for p in pts))
+    for k in anchors:
+        ctx.check("anchor %d kept" % k, any(x is pts[k] for x in out))
+    # nothing is dropped needlessly: every dropped candidate is closer than the minimum to a kept point
+    for p in pts:
+        if not any(x is p for x in out):
+            ctx.check("a dropped point is within the minimum of some kept point", OR(*[abs(p - x) < m for x in out]))
+
+
+@harness("C11", bounds="mini core of 3 real fuel assemblies (reflector/fuel/plenum blocks) whose fuel bottoms in "
+                       "[5,60] and fuel tops in [70,400] cm are symbolic and pairwise different (variant: two "
+                       "assemblies share a boundary); minimum size in [0.01,100]; second call with the first "
+                       "result passed as anchors plus control-like extra boundaries", stubs=STUBS,
+         instances={"quick": [dict(share=False), dict(share=True)]})
+def filtered_fuel_boundaries_keep_extremes(ctx, share):
+    r, core, assems = _build.mk_core([(0, 0), (1, 0), (2, 0)], nblocks=3)
+    bots = [ctx.real("bot%d" % k, 5.0, 60.0) for k in range(3)]
+    tops = [ctx.real("top%d" % k, 70.0, 400.0) for k in range(3)]
+    if share:
+        bots[2], tops[1] = bots[0], tops[0]
+    for xs in (bots, tops):
+        for i in range(3):
+            for j in range(i + 1, 3):
+                if xs[i] is not xs[j]:
+                    ctx.assume(xs[i] != xs[j])
+    for k, a in enumerate(assems):
+        a[0].setType("reflector")
+        a[2].setType("plenum")
+        point_mesh(ctx, a, [0.0, bots[k], tops[k], tops[k] + 50.0], "assembly %d" % k)
+    m = ctx.real("minSize", 0.01, 100.0)
+    gen = UniformMeshGenerator(r, minimumMeshSize=m)
+    fb, ft = gen._getFilteredMeshTopAndBottom(Flags.FUEL)
+    lowest, highest = MIN(*bots), MAX(*tops)
+    if ctx.canary:
+        highest = ITE(AND(tops[0] > tops[2] + 300, m > 90), tops[2], highest)
+    for name, out, cands in (("bottoms", fb, bots), ("tops", ft, tops)):
+        for a, b in zip(out, out[1:]):
+            ctx.check("%s strictly increasing with gaps >= minimum" % name, AND(b > a, b - a >= m))
+        for x in out:
+            ctx.check("%s are fuel boundaries of some assembly" % name, any(x is p for p in cands))
+    ctx.check("the lowest fuel bottom is kept", OR(*[x == lowest for x in fb]))
+    ctx.check("the highest fuel top is kept", OR(*[x == highest for x in ft]))
+    ctx.check("lowest bottom is first, highest top is last", AND(fb[0] == lowest, ft[-1] == highest))
+
+
+# ---------------------------------------------------------------------------------------------------------------
+# (4) step-function resampling
+
+
+# Candidate genuine defect (reported, not repaired): in sum mode an output bin lying strictly inside ONE input bin is
+# trimmed on both sides of the same chunk element, so the two covered fractions are multiplied (y*fl*fr) instead of
+# combined (y*(fl+fr-1)):  resampleStepwise([0,10],[100],[0,4,6,10],avg=False) -> [40, 36, 40]  (sum 116, not 100).
+# While the flag is set, the sum-mode obligations are stated only for output bins that are not strictly inside one
+# input bin (and the total only when no output bin is); set it to False to see the violation.
+KNOWN_DEFECT_resample_sum_inner_bin = True
+
+
+def _seg_overlap(a0, a1, b0, b1):
+    return MAX(0, MIN(a1, b1) - MAX(a0, b0))
+
+
+@harness("C11", bounds="step function on n bins (first point in [-100,100], bin widths in [0.01,1000], values in "
+                       "[-1000,1000], all symbolic) resampled onto m bins; span='same': identical end points, interior "
+                       "points anywhere (every interleaving/coincidence is a path); span='sub': output span strictly "
+                       "or weakly inside the input span; both modes (average / sum)", stubs=STUBS, qtimeout_ms=30000,
+         instances={"quick": [dict(n=2, m=2, span="same"), dict(n=3, m=2, span="same"), dict(n=2, m=3, span="same"),
+                              dict(n=2, m=2, span="sub")],
+                    "thorough": [dict(n=3, m=3, span="same"), dict(n=3, m=2, span="sub"), dict(n=4, m=2, span="same")]})
+def resample_stepwise_conserves_integral(ctx, n, m, span):
+    x0 = ctx.real("x0", -100.0, 100.0)
+    dx = [ctx.real("dx%d" % k, 0.01, 1000.0) for k in range(n)]
+    xin = [x0]
+    for d in dx:
+        xin.append(xin[-1] + d)
+    yin = [ctx.real("y%d" % k, -1000.0, 1000.0) for k in range(n)]
+    W = xin[-1] - xin[0]
+    if span == "same":
+        do = [ctx.real("do%d" % k, 0.01, 1000.0) for k in range(m - 1)]
+        last = W - sum(do)
+        ctx.assume(last >= 0.01 * _slack(ctx, -1))
+        xout = [x0]
+        for d in do:
+            xout.append(xout[-1] + d)
+        xout.append(xin[-1])
+        do = do + [last]
+    else:
+        s0 = ctx.real("shift", 0.0, 1000.0)
+        do = [ctx.real("do%d" % k, 0.01, 1000.0) for k in range(m)]
+        xout = [x0 + s0]
+        for d in do:
+            xout.append(xout[-1] + d)
+        ctx.assume(xout[-1] <= xin[-1] + (0 if ctx.mode == "sym" else 1e-9 * W))
+    ysc = sum(abs(y) for y in yin) + 1e-30
+    avg = mathmod.resampleStepwise(list(xin), list(yin), list(xout), avg=True)
+    tot = mathmod.resampleStepwise(list(xin), list(yin), list(xout), avg=False)
+    ctx.check("one output value per output bin", AND(len(avg) == m, len(tot) == m))
+    inners = []
+    for j in range(m):
+        ov = [_seg_overlap(xin[i], xin[i + 1], xout[j], xout[j + 1]) for i in range(n)]
+        want = sum(yin[i] * ov[i] for i in range(n))
+        if ctx.canary and j == 0:
+            want = want * ITE(AND(do[0] > 2 * dx[0], dx[0] > 100), 1.001, 1)
+        ctx.check_close("average mode, bin %d: value x width = integral of the step function over the bin" % j,
+                        avg[j] * do[j], want, scale=ysc * W)
+        inner = OR(*[AND(xin[i] < xout[j], xout[j + 1] < xin[i + 1]) for i in range(n)])
+        inners.append(inner)
+        wantSum = sum(yin[i] * ov[i] / dx[i] for i in range(n))
+        if KNOWN_DEFECT_resample_sum_inner_bin:
+            wantSum = ITE(inner, tot[j], wantSum)
+        ctx.check_close("sum mode, bin %d: value = sum of source values x covered fraction of the source bin" % j,
+                        tot[j], wantSum, scale=ysc)
+    if span == "same":
+        ctx.check_close("average mode conserves the integral sum(y dx)", sum(a * d for a, d in zip(avg, do)),
+                        sum(y * d for y, d in zip(yin, dx)), scale=ysc * W)
+        wantTot = sum(yin)
+        if KNOWN_DEFECT_resample_sum_inner_bin:
+            wantTot = ITE(OR(*inners), sum(tot), wantTot)
+        ctx.check_close("sum mode conserves sum(y)", sum(tot), wantTot, scale=ysc)
+    c = ctx.real("c", -1000.0, 1000.0)
+    flat = mathmod.resampleStepwise(list(xin), [c] * n, list(xout), avg=True)
+    for j in range(m):
+        ctx.check_close("a constant profile stays constant (bin %d)" % j, flat[j], c, scale=abs(c) + 1e-30)
+    ctx.check("inputs are not modified", AND(all(a is b for a, b in zip(yin, [y for y in yin])), len(yin) == n))
+
+
+# ---------------------------------------------------------------------------------------------------------------
+# (5) averaging kernel of the common-mesh generation
+
+
+@harness("C11", bounds="r x 2 array of assembly mesh points (r=2,3 rows), every row strictly increasing, values in "
+                       "[1,2000] cm symbolic; tolerance 0.2 (default)", stubs=STUBS, raises=(ValueError,),
+         instances={"quick": [dict(rows=2), dict(rows=3)]})
+def average_mesh_within_tolerance(ctx, rows):
+    vals = []
+    for r in range(rows):
+        a = ctx.real("a%d" % r, 1.0, 2000.0)
+        b = ctx.real("b%d" % r, 1.0, 2000.0)
+        ctx.assume(a < b)
+        vals.append([a, b])
+    try:
+        avg = mathmod.average1DWithinTolerance([list(v) for v in vals])
+    except ValueError:
+        # documented failure: "Nothing was near the mean"; it cannot happen when all rows agree within 10 %
+        small = AND(*[abs(u[k] - v[k]) <= 0.1 * u[k] for u in vals for v in vals if u is not v for k in range(2)])
+        ctx.check("no failure when all meshes agree within 10 %", NOT(small))
+        return
+    ctx.check("one average per mesh point", len(avg) == 2)
+    for k in range(2):
+        lo, hi = MIN(*[v[k] for v in vals]), MAX(*[v[k] for v in vals])
+        hi2 = hi
+        if ctx.canary and k == 1:
+            hi2 = ITE(AND(vals[0][1] > 1.15 * vals[1][1], vals[0][1] > 1000), (lo + hi) / 2.2, hi)
+        ctx.check("average %d lies between the smallest and largest input" % k,
+                  AND(avg[k] >= lo * (1 - 1e-9), avg[k] <= hi2 * (1 + 1e-9)))
+        ctx.check("average %d is positive" % k, avg[k] > 0)
+    ctx.check("the averaged mesh is strictly increasing", avg[0] < avg[1])
+    plain = [sum(v[k] for v in vals) / rows for k in range(2)]
+    allNear = AND(*[abs(v[k] - plain[k]) <= 0.2 * plain[k] for v in vals for k in range(2)])
+    ctx.check("if every row is within the tolerance of the plain mean, the result is the plain mean",
+              IMPLIES(allNear, AND(CLOSE(avg[0], plain[0], plain[0]), CLOSE(avg[1], plain[1], plain[1]))))
+
+
+# ---------------------------------------------------------------------------------------------------------------
+# (6) mass-conserving change of the block mesh of one assembly
+
+
+@harness("C11", bounds="real HexAssembly of 2 fuel blocks, old heights and new mesh in [0.1,1000] cm, number densities "
+                       "in [0,10] symbolic; Block.setHeight(conserveMass=True) and Assembly.setBlockMesh with "
+                       "conserveMassFlag True / 'auto' / False", stubs=STUBS, qtimeout_ms=30000,
+         instances={"quick": [dict(mode="setHeight"), dict(mode=True), dict(mode="auto"), dict(mode=False)]})
+def block_mesh_change_conserves_mass(ctx, mode):
+    a, hs = sym_assembly(ctx, 2, "")
+    fill_densities(ctx, a, "")
+    new = [ctx.real("new%d" % k, HLO, HHI) for k in range(2)]
+    comps = [(k, c) for k, b in enumerate(a) for c in b]
+    m0 = {(k, c.name, nuc): c.getMass(nuc) for k, c in comps for nuc in NUCS[c.name]}
+    bm0 = {(k, nuc): b.getMass(nuc) for k, b in enumerate(a) for nuc in ALLNUCS}
+    if mode == "setHeight":
+        adj = ["U235", "FE"]
+        a[0].setHeight(new[0], conserveMass=True, adjustList=list(adj))
+        a[1].setHeight(new[1])
+        conserved = None
+    else:
+        for k, b in enumerate(a):
+            b.p.topIndex = k
+        a.setBlockMesh([new[0], new[0] + new[1]], conserveMassFlag=mode)
+        # documented rule: True -> everything; 'auto' -> only the fuel of fuel blocks; False -> nothing
+        conserved = lambda k, c: mode is True or (mode == "auto" and c.hasFlags(Flags.FUEL))  # noqa: E731
+    for k, b in enumerate(a):
+        ctx.check_close("block %d has the requested height" % k, b.getHeight(), new[k], scale=new[k])
+    ctx.check_close("blocks stay stacked: top of block 0 = bottom of block 1", a[0].p.ztop, a[1].p.zbottom,
+                    scale=new[0])
+    ctx.check_close("assembly height = sum of the new heights", a[1].p.ztop, new[0] + new[1], scale=new[0] + new[1])
+    ctx.check_close("axial grid bounds follow the new mesh", a.spatialGrid._bounds[2][1], new[0], scale=new[0])
+    for k, c in comps:
+        for nuc in NUCS[c.name]:
+            got = c.getMass(nuc)
+            if mode == "setHeight":
+                continue        # block-level adjustment: checked per block below
+            want = m0[(k, c.name, nuc)] * (1 if conserved(k, c) else new[k] / hs[k])
+            if ctx.canary and c.name == "clad" and k == 1:
+                want = want * ITE(new[1] > 5 * hs[1], 1.001, 1)
+            ctx.check_close("block %d %s: mass of %s %s" % (k, c.name, nuc,
+                                                            "conserved" if conserved(k, c) else "follows the height"),
+                            got, want, scale=m0[(k, c.name, nuc)] * (1 + new[k] / hs[k]) + 1e-30)
+    if mode == "setHeight":
+        for k, b in enumerate(a):
+            for nuc in ALLNUCS:
+                got = b.getMass(nuc)
+                keep = k == 0 and nuc in adj
+                want = bm0[(k, nuc)] * (1 if keep else new[k] / hs[k])
+                if ctx.canary and nuc == "FE" and k == 0:
+                    want = want * ITE(new[0] > 5 * hs[0], 1.001, 1)
+                ctx.check_close("block %d: mass of %s %s" % (k, nuc, "conserved by setHeight(conserveMass=True) for "
+                                "the listed nuclides" if keep else "follows the height"), got, want,
+                                scale=bm0[(k, nuc)] * (1 + new[k] / hs[k]) + 1e-30)
+
+
+@harness("C11", bounds="the public entry point: makeAssemWithUniformMesh on a real source assembly (ns blocks, heights "
+                       "and densities symbolic) with a symbolic new mesh of nd tops ending at the same height; builds "
+                       "homogenised destination blocks itself", stubs=STUBS, qtimeout_ms=30000,
+         instances={"quick": [dict(ns=2, nd=2)], "thorough": [dict(ns=3, nd=2), dict(ns=2, nd=3)]})
+def make_assembly_with_new_mesh_conserves_atoms(ctx, ns, nd):
+    # with the derived-shape coolant the components fill the hexagon, as the homogenised copy assumes
+    src, hs = sym_assembly(ctx, ns, "s", coolant=True)
+    fill_densities(ctx, src, "s")
+    H = sum(hs)
+    hd = dest_mesh(ctx, H, nd)
+    tops = []
+    for d in hd[:-1]:
+        tops.append((tops[-1] if tops else 0.0) + d)
+    tops.append(src[-1].p.ztop)
+    before = {nuc: atoms(src, nuc) for nuc in ALLNUCS}
+    new = UniformMeshGeometryConverter.makeAssemWithUniformMesh(src, tops)
+    ctx.check("new assembly has one block per mesh cell", len(new) == nd)
+    for j, b in enumerate(new):
+        ctx.check_close("new block %d has the requested height" % j, b.getHeight(), hd[j], scale=H)
+        ctx.check_close("new block %d top = mesh point" % j, b.p.ztop, tops[j], scale=H)
+    area = src[0].getArea()
+    for nuc in ALLNUCS:
+        got = atoms(new, nuc)
+        if ctx.canary and nuc == "U235":
+            got = got * ITE(hd[0] > 2 * hs[0], 1.001, 1.0)
+        ctx.check_close("atoms of %s conserved on the new assembly" % nuc, got, before[nuc],
+                        scale=sum(b.getNumberDensity(nuc) for b in src) * H * area + 1e-30)
